@@ -143,8 +143,8 @@ class ConnMan:
                 grp_devs = self.system.__dict__[grp_name].find_idx(keys=src, values=offbus_idx,
                                                                    allow_none=True, allow_all=True,
                                                                    default=None)
-                grp_devs_flat = list_flatten(grp_devs)
-                if grp_devs_flat != [None]:
+                grp_devs_flat = [dev for dev in list_flatten(grp_devs) if dev is not None]
+                if len(grp_devs_flat) > 0:
                     devices.append(grp_devs_flat)
 
             devices_flat = list_flatten(devices)
